@@ -452,6 +452,7 @@ POST_TABLE = [
 ]
 
 
+RAW_RANGE = re.compile(r'::(find_raw|rfind_raw|count_raw)$')
 SPLIT_EMPTY = [(re.compile(r'^arch::all::twoway::(Finder|FinderRev)::new$'),)]
 
 
@@ -605,6 +606,16 @@ def root_states(I, inst, st, args):
     """REL assumed for the arguments of a root: [(state, args)]"""
     row = lookup(PRE_TABLE, inst.path)
     alts = expand_args(I, st, args)
+    if RAW_RANGE.search(inst.path) and len(args) >= 2 and isinstance(args[-1], PtrV) and isinstance(args[-2], PtrV) and args[-1].r == args[-2].r:
+        # raw range roots ("callers may pass start >= end"): the empty / inverted window apart from the proper one, so that
+        # the proper one can use start < end whether or not the code tests it up front
+        nxt = []
+        for s, a in alts:
+            s0 = s.copy()
+            add_atom(s, ('le', a[-2].off + 1 - a[-1].off))
+            add_atom(s0, ('le', a[-1].off - a[-2].off))
+            nxt += [(s, a), (s0, a)]
+        alts = nxt
     if lookup(SPLIT_EMPTY, inst.path) and args and isinstance(args[0], SliceV):
         # constructors whose REL-POST is conditional on a non-empty needle: analyse both cases apart
         nxt = []
